@@ -139,4 +139,447 @@ theorem headerRead_result (v : Variant) (d : Bytes) :
     · simp [hc, Variant.repaired, decode_clearLegacy _ hl]
     · simp [hc, Variant.repaired]
 
+/-! ### quiet handles: no alignment, hence no write, from `init_tantivy` -/
+
+/-- the part of a handle the write-capable path looks at stays put -/
+structure Same (h h' : Handle) : Prop where
+  log : h'.log = h.log
+  file : h'.file = h.file
+  header : h'.header = h.header
+  toc : h'.toc = h.toc
+  readOnly : h'.readOnly = h.readOnly
+  generation : h'.generation = h.generation
+  walRegion : h'.wal.region = h.wal.region
+  walRo : h'.wal.ro = h.wal.ro
+
+theorem Same.rfl' (h : Handle) : Same h h := ⟨rfl, rfl, rfl, rfl, rfl, rfl, rfl, rfl⟩
+
+theorem Same.trans {a b c : Handle} (x : Same a b) (y : Same b c) : Same a c :=
+  ⟨y.log.trans x.log, y.file.trans x.file, y.header.trans x.header, y.toc.trans x.toc,
+   y.readOnly.trans x.readOnly, y.generation.trans x.generation, y.walRegion.trans x.walRegion, y.walRo.trans x.walRo⟩
+
+/-- `align_footer_with_catalog` answers `Ok(false)` without touching anything -/
+def NoAlign (v : Variant) (h : Handle) : Prop :=
+  (h.readOnly = true ∧ v.alignsWhenReadOnly = false) ∨ catalogDataEnd h ≤ h.header.footerOffset
+
+/-- every segment the loop looks at is empty or ends inside both limits -/
+def InBounds (segs : List (Nat × Nat)) (fileLen dataLimit : Nat) : Prop :=
+  ∀ e ∈ segs, e.2 = 0 ∨ (e.1 + e.2 ≤ fileLen ∧ e.1 + e.2 ≤ dataLimit)
+
+theorem alignFooter_noAlign (v : Variant) (ext : Ext) (h : Handle) (hq : NoAlign v h) :
+    alignFooter v ext h = (h, .ok false) := by
+  unfold alignFooter
+  rcases hq with ⟨h1, h2⟩ | h3
+  · simp [h1, h2]
+  · by_cases hc : (h.readOnly && !v.alignsWhenReadOnly) = true
+    · simp [hc]
+    · simp [hc, h3]
+
+theorem materialize_cons (v : Variant) (ext : Ext) (h : Handle) (off len : Nat) (rest : List (Nat × Nat)) (fl dl : Nat) :
+    materialize v ext h ((off, len) :: rest) fl dl =
+      if len = 0 then materialize v ext h rest fl dl
+      else if off + len ≥ 2 ^ 64 then (h, .error .tantivy)
+      else if off + len > fl ∨ off + len > dl then
+        match alignFooter v ext h with
+        | (h', .error e) => (h', .error e)
+        | (h', .ok aligned) =>
+          if off + len > (if aligned then h'.file.length else fl) ∨ off + len > (if aligned then h'.header.footerOffset else dl)
+          then (h', .error .tantivy)
+          else materialize v ext h' rest (if aligned then h'.file.length else fl) (if aligned then h'.header.footerOffset else dl)
+      else materialize v ext h rest fl dl := by
+  rw [materialize]
+  rfl
+
+theorem materialize_noAlign (v : Variant) (ext : Ext) (h : Handle) (hq : NoAlign v h)
+    (segs : List (Nat × Nat)) (fl dl : Nat) : (materialize v ext h segs fl dl).1 = h := by
+  induction segs with
+  | nil => simp [materialize]
+  | cons e rest ih =>
+    obtain ⟨off, len⟩ := e
+    rw [materialize_cons, alignFooter_noAlign v ext h hq]
+    by_cases h1 : len = 0
+    · simp [h1, ih]
+    · by_cases h2 : off + len ≥ 2 ^ 64
+      · simp [h1, h2]
+      · by_cases h3 : off + len > fl ∨ off + len > dl
+        · simp [h1, h2, h3]
+        · simp [h1, h2, h3, ih]
+
+theorem materialize_inBounds (v : Variant) (ext : Ext) (h : Handle)
+    (segs : List (Nat × Nat)) (fl dl : Nat) (hb : InBounds segs fl dl) : (materialize v ext h segs fl dl).1 = h := by
+  induction segs with
+  | nil => simp [materialize]
+  | cons e rest ih =>
+    obtain ⟨off, len⟩ := e
+    have ih' := ih (fun e he => hb e (List.mem_cons_of_mem _ he))
+    have h0 := hb (off, len) (List.mem_cons_self)
+    simp only at h0
+    rw [materialize_cons]
+    by_cases h1 : len = 0
+    · simp [h1, ih']
+    · by_cases h2 : off + len ≥ 2 ^ 64
+      · simp [h1, h2]
+      · have h3 : ¬ (off + len > fl ∨ off + len > dl) := by omega
+        simp [h1, h2, h3, ih']
+
+/-- the condition under which `init_tantivy` (hence open and `search`) issues no write -/
+def Quiet (v : Variant) (h : Handle) : Prop :=
+  NoAlign v h ∨ InBounds (usedSegs h.toc) h.file.length h.header.footerOffset
+
+theorem Quiet.of_same {v : Variant} {h h' : Handle} (s : Same h h') (q : Quiet v h) : Quiet v h' := by
+  unfold Quiet NoAlign catalogDataEnd at *
+  rw [s.readOnly, s.toc, s.header, s.file]
+  exact q
+
+theorem initTantivy_quiet (v : Variant) (ext : Ext) (h : Handle) (q : Quiet v h) :
+    Same h (initTantivy v ext h) := by
+  unfold initTantivy
+  split
+  · exact ⟨rfl, rfl, rfl, rfl, rfl, rfl, rfl, rfl⟩
+  · have hm : (materialize v ext h (usedSegs h.toc) h.file.length h.header.footerOffset).1 = h := by
+      rcases q with q | q
+      · exact materialize_noAlign v ext h q _ _ _
+      · exact materialize_inBounds v ext h _ _ _ q
+    split
+    · exact ⟨rfl, rfl, rfl, rfl, rfl, rfl, rfl, rfl⟩
+    · rw [hm]
+      exact ⟨rfl, rfl, rfl, rfl, rfl, rfl, rfl, rfl⟩
+
+theorem readStep_quiet (v : Variant) (ext : Ext) (h : Handle) (q : Quiet v h) (hro : h.wal.ro = true) (op : ReadOp) :
+    Same h (readStep v ext h op).1 := by
+  cases op with
+  | frameCount => exact Same.rfl' h
+  | frameById i => exact Same.rfl' h
+  | frameText i => exact Same.rfl' h
+  | timeline => exact Same.rfl' h
+  | stats => exact Same.rfl' h
+  | search =>
+    simp only [readStep]
+    split
+    · exact Same.rfl' h
+    · split
+      · exact Same.rfl' h
+      · exact initTantivy_quiet v ext h q
+  | walPending =>
+    simp only [readStep]
+    split
+    · exact Same.rfl' h
+    · rename_i w' rs hp
+      obtain ⟨hr, hro'⟩ := wal_pending_ro ext.H h.wal w' rs hro hp
+      rw [hr, walWrites_same, emit_nil]
+      exact ⟨rfl, rfl, rfl, rfl, rfl, rfl, hr, hro'.trans hro.symm⟩
+
+theorem runOps_quiet (v : Variant) (ext : Ext) (ops : List ReadOp) (h : Handle) (q : Quiet v h) (hro : h.wal.ro = true) :
+    Same h (runOps v ext h ops).1 := by
+  induction ops generalizing h with
+  | nil => exact Same.rfl' h
+  | cons op ops ih =>
+    have s1 := readStep_quiet v ext h q hro op
+    have s2 := ih (readStep v ext h op).1 (Quiet.of_same s1 q) (s1.walRo.trans hro)
+    simp only [runOps]
+    exact s1.trans s2
+
+/-! ### the frame list a handle shows never changes (in any variant, writes or not) -/
+
+theorem emit_toc (h : Handle) (ws : List Write) : (h.emit ws).toc = h.toc := rfl
+
+theorem rewriteTocFooter_frames (ext : Ext) (h : Handle) : (rewriteTocFooter ext h).toc.frames = h.toc.frames := rfl
+
+theorem alignFooter_frames (v : Variant) (ext : Ext) (h : Handle) :
+    (alignFooter v ext h).1.toc.frames = h.toc.frames := by
+  unfold alignFooter
+  split
+  · rfl
+  · dsimp only
+    split
+    · rfl
+    · split <;> rfl
+
+theorem materialize_frames (v : Variant) (ext : Ext) (segs : List (Nat × Nat)) (h : Handle) (fl dl : Nat) :
+    (materialize v ext h segs fl dl).1.toc.frames = h.toc.frames := by
+  induction segs generalizing h fl dl with
+  | nil => simp [materialize]
+  | cons e rest ih =>
+    obtain ⟨off, len⟩ := e
+    rw [materialize_cons]
+    by_cases h1 : len = 0
+    · simp [h1, ih]
+    · by_cases h2 : off + len ≥ 2 ^ 64
+      · simp [h1, h2]
+      · by_cases h3 : off + len > fl ∨ off + len > dl
+        · simp only [h1, h2, h3, if_true, if_false]
+          have ha := alignFooter_frames v ext h
+          rcases hal : alignFooter v ext h with ⟨h', r⟩
+          rw [hal] at ha
+          cases r with
+          | error e => exact ha
+          | ok aligned =>
+            simp only
+            generalize (if aligned = true then h'.file.length else fl) = fl'
+            generalize (if aligned = true then h'.header.footerOffset else dl) = dl'
+            split
+            · exact ha
+            · rw [ih]; exact ha
+        · simp [h1, h2, h3, ih]
+
+theorem initTantivy_frames (v : Variant) (ext : Ext) (h : Handle) : (initTantivy v ext h).toc.frames = h.toc.frames := by
+  unfold initTantivy
+  split
+  · rfl
+  · split
+    · rfl
+    · exact materialize_frames v ext _ h _ _
+
+theorem readStep_frames (v : Variant) (ext : Ext) (h : Handle) (op : ReadOp) :
+    (readStep v ext h op).1.toc.frames = h.toc.frames := by
+  cases op with
+  | frameCount => rfl
+  | frameById i => rfl
+  | frameText i => rfl
+  | timeline => rfl
+  | stats => rfl
+  | search =>
+    simp only [readStep]
+    split
+    · rfl
+    · split
+      · rfl
+      · exact initTantivy_frames v ext h
+  | walPending =>
+    simp only [readStep]
+    split <;> rfl
+
+theorem runOps_frames (v : Variant) (ext : Ext) (ops : List ReadOp) (h : Handle) :
+    (runOps v ext h ops).1.toc.frames = h.toc.frames := by
+  induction ops generalizing h with
+  | nil => rfl
+  | cons op ops ih =>
+    simp only [runOps]
+    rw [ih, readStep_frames]
+
+/-! ### the write log only grows -/
+
+def Grows (a b : List Write) : Prop := ∃ ws, b = a ++ ws
+
+theorem Grows.rfl' (a : List Write) : Grows a a := ⟨[], by simp⟩
+
+theorem Grows.trans {a b c : List Write} (x : Grows a b) (y : Grows b c) : Grows a c := by
+  obtain ⟨w1, h1⟩ := x
+  obtain ⟨w2, h2⟩ := y
+  exact ⟨w1 ++ w2, by rw [h2, h1, List.append_assoc]⟩
+
+theorem emit_grows (h : Handle) (ws : List Write) : Grows h.log (h.emit ws).log := ⟨ws, rfl⟩
+
+theorem grows_emit (a : List Write) (h : Handle) (ws : List Write) (hl : Grows a h.log) :
+    Grows a (h.emit ws).log := hl.trans (emit_grows h ws)
+
+theorem rewriteTocFooter_grows (ext : Ext) (h : Handle) : Grows h.log (rewriteTocFooter ext h).log := ⟨_, rfl⟩
+
+theorem alignFooter_grows (v : Variant) (ext : Ext) (h : Handle) : Grows h.log (alignFooter v ext h).1.log := by
+  unfold alignFooter
+  split
+  · exact Grows.rfl' _
+  · dsimp only
+    split
+    · exact Grows.rfl' _
+    · split
+      · exact rewriteTocFooter_grows ext _
+      · exact grows_emit _ _ _ (rewriteTocFooter_grows ext _)
+
+theorem materialize_grows (v : Variant) (ext : Ext) (segs : List (Nat × Nat)) (h : Handle) (fl dl : Nat) :
+    Grows h.log (materialize v ext h segs fl dl).1.log := by
+  induction segs generalizing h fl dl with
+  | nil => simp [materialize]; exact Grows.rfl' _
+  | cons e rest ih =>
+    obtain ⟨off, len⟩ := e
+    rw [materialize_cons]
+    by_cases h1 : len = 0
+    · simp [h1, ih]
+    · by_cases h2 : off + len ≥ 2 ^ 64
+      · simp [h1, h2]; exact Grows.rfl' _
+      · by_cases h3 : off + len > fl ∨ off + len > dl
+        · simp only [h1, h2, h3, if_true, if_false]
+          have ha := alignFooter_grows v ext h
+          rcases hal : alignFooter v ext h with ⟨h', r⟩
+          rw [hal] at ha
+          cases r with
+          | error e => exact ha
+          | ok aligned =>
+            simp only
+            generalize (if aligned = true then h'.file.length else fl) = fl'
+            generalize (if aligned = true then h'.header.footerOffset else dl) = dl'
+            split
+            · exact ha
+            · exact ha.trans (ih h' fl' dl')
+        · simp [h1, h2, h3, ih]
+
+theorem initTantivy_grows (v : Variant) (ext : Ext) (h : Handle) : Grows h.log (initTantivy v ext h).log := by
+  unfold initTantivy
+  split
+  · exact Grows.rfl' _
+  · split
+    · exact Grows.rfl' _
+    · exact materialize_grows v ext _ h _ _
+
+theorem readStep_grows (v : Variant) (ext : Ext) (h : Handle) (op : ReadOp) :
+    Grows h.log (readStep v ext h op).1.log := by
+  cases op with
+  | frameCount => exact Grows.rfl' _
+  | frameById i => exact Grows.rfl' _
+  | frameText i => exact Grows.rfl' _
+  | timeline => exact Grows.rfl' _
+  | stats => exact Grows.rfl' _
+  | search =>
+    simp only [readStep]
+    split
+    · exact Grows.rfl' _
+    · split
+      · exact Grows.rfl' _
+      · exact initTantivy_grows v ext h
+  | walPending =>
+    simp only [readStep]
+    split
+    · exact Grows.rfl' _
+    · exact emit_grows _ _
+
+theorem runOps_grows (v : Variant) (ext : Ext) (ops : List ReadOp) (h : Handle) :
+    Grows h.log (runOps v ext h ops).1.log := by
+  induction ops generalizing h with
+  | nil => exact Grows.rfl' _
+  | cons op ops ih =>
+    simp only [runOps]
+    exact (readStep_grows v ext h op).trans (ih _)
+
+/-- once the tail snapshot is found, everything the header read wrote stays at the front of the log,
+    whether the open succeeds or not -/
+theorem open_log_grows (b : Bool) (v : Variant) (ext : Ext) (d : Bytes) (snap : Snapshot)
+    (hs : loadTailSnapshot ext d = .ok snap) :
+    Grows (headerRead v d).1 (openReadOnlyWith b v ext d).log ∧
+    ∀ h, (openReadOnlyWith b v ext d).res = .ok h → h.log = (openReadOnlyWith b v ext d).log := by
+  unfold openReadOnlyWith
+  rw [hs]
+  simp only
+  rcases hhr : headerRead v d with ⟨ws, r⟩
+  simp only
+  cases r with
+  | error e => exact ⟨Grows.rfl' _, by simp⟩
+  | ok hdr0 =>
+    simp only
+    split
+    · exact ⟨Grows.rfl' _, by simp⟩
+    · refine ⟨?_, ?_⟩
+      · exact (emit_grows _ _).trans (initTantivy_grows v ext _)
+      · intro h hh
+        simp only [Except.ok.injEq] at hh
+        rw [← hh]
+
+/-! ### the tail scan -/
+
+open Mv.Footer in
+theorem findLast_at_end (H : Bytes → Bytes) (b : Bytes) (q : Nat) (hv : ValidAt H b q)
+    (hend : q + FOOTER_SIZE = b.length) : findLast H b = some (sliceAt b q) := by
+  cases hf : findLast H b with
+  | none => exact absurd hv (C31_complete H b hf q)
+  | some s =>
+    have hs := C31_sound H b s hf
+    have hh := C31_highest H b s hf
+    have h1 : s.footerOffset ≤ q := by have := hs.1.1; omega
+    have h2 : q ≤ s.footerOffset := by
+      apply Nat.le_of_not_lt
+      intro hlt
+      exact hh q hlt hv
+    have heq : s.footerOffset = q := by omega
+    rw [C31_naive] at hf
+    obtain ⟨_, _, hsl, _⟩ := naive_some H b _ s hf
+    rw [hsl, heq]
+
+theorem slice_drop (d : Bytes) (s x n : Nat) : slice (d.drop s) x n = slice d (s + x) n := by
+  unfold slice
+  rw [List.drop_drop]
+
+open Mv.Footer in
+/-- a valid footer whose TOC starts at or after `s` is a valid footer of the suffix from `s` -/
+theorem validAt_drop (H : Bytes → Bytes) (d : Bytes) (p s : Nat) (hv : ValidAt H d p)
+    (hs : s + (sliceAt d p).footer.tocLen ≤ p) :
+    ValidAt H (d.drop s) (p - s) ∧
+    sliceAt (d.drop s) (p - s) =
+      { footerOffset := p - s, tocOffset := p - s - (sliceAt d p).footer.tocLen,
+        footer := (sliceAt d p).footer, tocBytes := (sliceAt d p).tocBytes } := by
+  obtain ⟨hlen, hm, hpos, hle, hh⟩ := hv
+  simp only [sliceAt] at hs
+  have e8 : slice (d.drop s) (p - s + 8) 8 = slice d (p + 8) 8 := by
+    rw [slice_drop]; congr 1; omega
+  have e0 : slice (d.drop s) (p - s) 8 = slice d p 8 := by
+    rw [slice_drop]; congr 1; omega
+  have e16 : slice (d.drop s) (p - s + 16) 32 = slice d (p + 16) 32 := by
+    rw [slice_drop]; congr 1; omega
+  have e48 : slice (d.drop s) (p - s + 48) 8 = slice d (p + 48) 8 := by
+    rw [slice_drop]; congr 1; omega
+  have et : slice (d.drop s) (p - s - leVal (slice d (p + 8) 8)) (leVal (slice d (p + 8) 8)) =
+      slice d (p - leVal (slice d (p + 8) 8)) (leVal (slice d (p + 8) 8)) := by
+    rw [slice_drop]; congr 1; omega
+  constructor
+  · refine ⟨?_, ?_, ?_, ?_, ?_⟩
+    · simp only [List.length_drop]; omega
+    · rw [e0]; exact hm
+    · rw [e8]; exact hpos
+    · rw [e8]; omega
+    · rw [e8, e16, et]; exact hh
+  · simp only [sliceAt, e8, e16, e48, et]
+
+theorem locateLoop_bound (H : Bytes → Bytes) (d : Bytes) (fuel w : Nat) (s : Mv.Footer.FooterSlice) (adj : Nat)
+    (h : locateLoop H d fuel w = some (s, adj)) : s.footerOffset + adj + Mv.Footer.FOOTER_SIZE ≤ d.length := by
+  induction fuel generalizing w with
+  | zero => simp [locateLoop] at h
+  | succ fuel ih =>
+    unfold locateLoop at h
+    simp only at h
+    split at h
+    · rename_i s' hf
+      simp only [Option.some.injEq, Prod.mk.injEq] at h
+      obtain ⟨h1, h2⟩ := h
+      subst h1; subst h2
+      have := (Mv.Footer.C31_sound H _ s' hf).1.1
+      simp only [List.length_drop] at this
+      omega
+    · split at h
+      · cases h
+      · exact ih _ h
+
+theorem locate_bound (H : Bytes → Bytes) (d : Bytes) (s : Mv.Footer.FooterSlice) (adj : Nat)
+    (h : locateFooterWindow H d = some (s, adj)) : s.footerOffset + adj + Mv.Footer.FOOTER_SIZE ≤ d.length := by
+  unfold locateFooterWindow at h
+  split at h
+  · cases h
+  · exact locateLoop_bound H d _ _ s adj h
+
+open Mv.Footer in
+/-- the last commit's footer is the file's tail and its TOC fits the first window: the FIRST window
+    already finds it -/
+theorem locate_of_tail (H : Bytes → Bytes) (d : Bytes) (p : Nat) (hv : ValidAt H d p)
+    (hend : p + FOOTER_SIZE = d.length)
+    (hfit : (sliceAt d p).footer.tocLen + FOOTER_SIZE ≤ MAX_SEARCH_SIZE) :
+    ∃ s adj, locateFooterWindow H d = some (s, adj) ∧ s.footerOffset + adj = p ∧
+      s.footer = (sliceAt d p).footer ∧ s.tocBytes = (sliceAt d p).tocBytes := by
+  have hle : (sliceAt d p).footer.tocLen ≤ p := by simpa [sliceAt] using hv.2.2.2.1
+  have hne : d.isEmpty = false := by
+    cases d with
+    | nil => simp [FOOTER_SIZE_eq] at hend
+    | cons _ _ => rfl
+  obtain ⟨w, hwd⟩ : ∃ w, w = min MAX_SEARCH_SIZE d.length := ⟨_, rfl⟩
+  have hw : d.length - w + (sliceAt d p).footer.tocLen ≤ p := by omega
+  obtain ⟨hv', hsl⟩ := validAt_drop H d p (d.length - w) hv hw
+  have hend' : (p - (d.length - w)) + FOOTER_SIZE = (d.drop (d.length - w)).length := by
+    simp only [List.length_drop]; omega
+  have hf := findLast_at_end H _ _ hv' hend'
+  refine ⟨sliceAt (d.drop (d.length - w)) (p - (d.length - w)), d.length - w, ?_, ?_, ?_, ?_⟩
+  · unfold locateFooterWindow
+    simp only [hne, Bool.false_eq_true, if_false]
+    unfold locateLoop
+    rw [← hwd]
+    simp only [hf]
+  · rw [hsl]; simp only; omega
+  · rw [hsl]
+  · rw [hsl]
+
 end Mv.ReadOnly
